@@ -142,7 +142,8 @@ def _worker(args):
     import run
     import monitors
     import paired  # noqa: F401  (registers C09 / C12 / C15)
-    import dealing  # noqa: F401  (registers C10 / C13 / C14)
+    import dealing  # noqa: F401  (registers C10)
+    import opener  # noqa: F401  (registers C13)
     mons = [monitors.ALL[m] for m in monitor_names]
     r = run.run_batch(seeds, tag, variant, profile, monitors=mons)
     viols = []
